@@ -604,14 +604,16 @@ theorem OLine_originLine (o : List UInt8) (ho : NameWF o) : OLine originLine o :
         rw [this]
         simp [encodeName] at hlen
         simpa using hlen
-    have hline := parseLine_origin ctx ((l :: ls').map decLabel) hwf [32] [] [] false [] (by simp) (by decide)
-      (by simp) (.inl rfl) 0
+    have hline := parseLine_origin ctx ((l :: ls').map decLabel) hwf [.blank false] false
+      ⟨by simp, by intro c crlf h; simp at h, rfl⟩ [] [] ⟨by intro c crlf h; simp at h, rfl, .inl rfl⟩ .lf []
+      (by intro h; cases h) 0
     have hw : wireName (((l :: ls').map decLabel).map labelOctets) = encodeName (l :: ls') := by
       have : ((l :: ls').map decLabel).map labelOctets = l :: ls' := by
         simp [decLabel, labelOctets, Function.comp_def]
       rw [this]; rfl
     rw [hw] at hline
-    simp only [eolText, Bool.false_eq_true, ↓reduceIte, List.nil_append, List.append_nil] at hline
+    simp only [tailText, gapText, gapItemText, gapLines, lineEnd, eolLines, Bool.false_eq_true, ↓reduceIte, List.nil_append,
+      List.append_nil, List.flatMap_cons, List.flatMap_nil] at hline
     exact single_line_none hline (by simp)
 
 end QV.Inc
